@@ -431,6 +431,7 @@ var tiers = map[string]map[string]tierSpec{
 		"C10":     {8000, 500, 120},
 		"C17":     {32000, 2000, 120},
 		"C11":     {7680, 480, 150},
+		"C13":     {4800, 300, 150},
 	},
 	"thorough": {
 		"default": {200000, 400, 1200},
@@ -524,7 +525,7 @@ func cmdCheck(args []string) int {
 	}
 	var known []string
 	for _, f := range findings {
-		if f.prop == prop {
+		if f.prop == prop && os.Getenv("QSIM_IGNORE_KNOWN") == "" {
 			known = append(known, f.class)
 		}
 	}
